@@ -477,7 +477,7 @@ def key_for(c, symptom, rec):
         max_perp = 2 * max(x * x for x in f)
         kmax_inside = E2[-1] <= max_perp
         nyq_in = rec['medges2'][-1] > (n // 2) ** 2
-        if kmax_inside and not nyq_in:
+        if kmax_inside:
             return f'{kern}:{symptom}:even-mesh:kperp-range-ends-inside-mesh'
         if nyq_in:
             return f'{symptom}:even-mesh:nyquist-plane-in-range'
@@ -636,6 +636,14 @@ def explore(ctx):
     mismatches = []
     by_id = {c['id']: c for c in cases}
     if ctx.model_available:
+        # hand model of P_n (Model.P_n_even) against the exact values of the independent explicit sum of this harness
+        pn_terms = [coqio.tup([coqio.tup([coqio.q(Fraction(num, den)), coqio.z(ell)]),
+                               coqio.VQ(legendre_exact(ell, Fraction(num, den)))]) for (num, den, ell) in pts]
+        bad, err = coq.eval_mismatches(ctx.scratch, 'c08pn', IMPORTS, 'run_pn', pn_terms)
+        if err:
+            mismatches.append({'error': err})
+        for bidx in bad[:2]:
+            mismatches.append({'P_n_model': pts[bidx], 'expected': str(legendre_exact(pts[bidx][2], Fraction(pts[bidx][0], pts[bidx][1])))})
         for kind, run in (('kmu', 'run_kmu'), ('kppi', 'run_kppi')):
             sel = [i for i, (cid, _) in enumerate(owners) if by_id[cid]['kind'] == kind]
             bad, err = coq.eval_mismatches(ctx.scratch, 'c08' + kind, IMPORTS, run, [terms[i] for i in sel], chunk=40)
@@ -670,7 +678,7 @@ def explore(ctx):
                 '1..6 bins) x multipole sets x 1..16 threads (quick tier samples ~50%); every case run under NUMBA_BOUNDSCHECK=1 and, '
                 'when that run is free of out-of-bounds accesses, unchecked; non-trivial = n1d >= 3 and at least one mode in range, '
                 'distinct by (kernel, n1d, k family, mu/pi family, threads)',
-        'samples': smp, 'traces_validated_against_impl': len(terms) if ctx.model_available else 0, 'exhaustive': False,
+        'samples': smp, 'traces_validated_against_impl': (len(terms) + len(pts)) if ctx.model_available else 0, 'exhaustive': False,
         'input_distribution': dist, 'mismatches': mismatches, 'counterexamples': ces,
         'float_residual': {'k_avg_rel_tol': KAVG_TOL, 'pole_tol_times_(2l+1)mean|w|': POLE_TOL,
                            'P_n_abs_tol': '2e-6 * sum|coef_l|', 'counts_and_sums': 'exact'},
